@@ -38,6 +38,9 @@ pub enum Entry {
     Forged2 { #[serde(with = "crate::exact")] value: Value },
     /// disclosure #i of a second credential issued over the same claims
     Foreign(u16),
+    /// this many well-formed disclosures `[salt, "filler", i]` that nothing references (the list
+    /// grows past what fits a 16-bit position)
+    Fillers(u32),
     /// garbage: 0 "!!!", 1 b64("not json"), 2 "", 3 b64("{}"), 4 b64("\"str\""), 5 b64("[]"), 6 b64("[1]"), 7 b64("[\"s\"]"), 8 "WyJ", 9 b64(genuine JSON + trailing garbage), 10 "g~g'", 11 "g~", 12 "~g" (JSON form only)
     Garbage(u8),
 }
@@ -157,6 +160,7 @@ fn concretise(e: &Entry, genuine: &[String], foreign: &[String], claims: &Value,
         }
         Entry::Forged2 { value } => Some((b64e(format!("[\"2GLC42sKQveCfGfryNRN9w\", {}]", value).as_bytes()), "forged element disclosure")),
         Entry::Foreign(i) => idx(*i, foreign.len()).map(|k| (foreign[k].clone(), "foreign credential")),
+        Entry::Fillers(_) => None, // expanded by the caller
         Entry::Garbage(k) => {
             let s = match k % 13 {
                 // strings that contain the separator of the OTHER format (only expressible in
@@ -226,6 +230,14 @@ pub fn check(case: &C03Case, st: &mut Stats) -> Verdict {
     let mut list: Vec<String> = vec![];
     let mut kinds: BTreeSet<&'static str> = BTreeSet::new();
     for e in &case.entries {
+        if let Entry::Fillers(n) = e {
+            kinds.insert("unreferenced fillers");
+            st.label("list_longer_than_65536");
+            for i in 0..(*n).min(70_000) {
+                list.push(b64e(format!("[\"f{}\", \"filler\", {}]", i, i).as_bytes()));
+            }
+            continue;
+        }
         if let Some((s, kind)) = concretise(e, genuine, &second.parts.disclosures, &spec.claims, &hidden_names) {
             if spec.fmt == Fmt::Compact && s.contains('~') {
                 continue;
